@@ -80,7 +80,9 @@ class CkptWorld:
                 raise Abandon()
 
     def record(self, proc: Any, name: str, args: tuple, kwargs: dict, phase: str) -> None:
-        self.trace.append((name, tuple(args), tuple(sorted(kwargs.items())), phase))
+        inputs = proc.inputs
+        seen = None if inputs is None else tuple(sorted((k, repr(v)) for k, v in inputs.items()))
+        self.trace.append((name, tuple(args), tuple(sorted(kwargs.items())), phase, seen))
         if phase == 'enter':
             proc._trace.append((name, tuple(args), tuple(sorted(kwargs.items()))))
 
